@@ -4,7 +4,7 @@ ENGINES = [
      "kind_free_text": "stateless DFS over choice points of the real code, weighted, deviation-bounded"},
     {"name": "E2-bfs", "path": "mc/explore_bfs.py", "serves_properties": ["C19"],
      "kind_free_text": "explicit-state BFS over operation histories of real objects (replay from scratch, canonical-form dedup)"},
-    {"name": "lattice", "path": "mc/lattice.py", "serves_properties": ["C05", "C10", "C11", "C20"],
+    {"name": "lattice", "path": "mc/lattice.py", "serves_properties": ["C05", "C06", "C07", "C08", "C10", "C11", "C20"],
      "kind_free_text": "complete enumeration of a finite configuration / program lattice against an independent reference"},
 ]
 NOTES = ("All checks explore the real mici code imported from /repo/src; no abstract model. "
@@ -22,6 +22,24 @@ CLAIMED = {
         technique="complete enumeration of system class x metric type x return convention x dimension lattice; dense-reference and finite-difference oracle",
         text="Every Hamiltonian value/derivative method of every system class (all eleven, each constant-metric type incl. implicit identity, low-rank up/downdates, every Riemannian family and SoftAbs coefficient, every accepted return convention, d=1..3) is compared at lattice states with a dense NumPy reference of the documented formula and with central differences of that reference; sum rules h=h1+h2 etc. are checked to rounding.",
         note="Continuous inputs are a finite lattice (shifted by VERIF_SEED); FD oracle tolerance 2e-6; zoo derivatives self-tested.",
+    ),
+    "C06": dict(
+        engine="lattice", category="exploration", design_ref="DESIGN.md section 5 (C06)",
+        technique="exhaustive enumeration of composition coefficient tuples on a recording system (exact sub-step log) plus integrator x system lattice against a reference ODE/DAE flow",
+        text="(i) every symmetric composition with free coefficients from {1,2,3,4}/10 (up to 4/5 free coefficients, both flow orders), BCSS schemes, leapfrog and the constrained scheme with N inner steps are run on a recording system: the sub-step log of the stepped state must alternate, be palindromic and sum to one per component; (ii) every integrator x compatible system on the lattice: one-step error against a DOP853 reference flow of the documented Hamiltonian over a step-size ladder must shrink with slope >= 2.5 and |dH|/eps^2 stay bounded.",
+        note="Numerical oracle (reference ODE/DAE solve at rtol 1e-11); lattice states only; thresholds calibrated (correct integrators measure 2.8-3.1).",
+    ),
+    "C07": dict(
+        engine="lattice", category="exploration", design_ref="DESIGN.md section 5 (C07)",
+        technique="complete enumeration of tractable-flow system x metric type x time lattice; closed-form / matrix-exponential oracle",
+        text="For every tractable-flow system class x constant metric type (incl. implicit identity and low-rank up/downdates) x d=1..3 x t in +-{0.1,1,7}: h1_flow leaves the position bit-identical and kicks the momentum by -t grad h1; h2_flow equals the drift / matrix exponential of the linear Hamilton equations, conserves h2, is additive in time and undone by -t; dh2_flow_dmom blocks equal the images of basis momenta.",
+        note="Flows of h2 are linear, so basis inputs characterise them; SciPy expm is the reference.",
+    ),
+    "C08": dict(
+        engine="lattice", category="exploration", design_ref="DESIGN.md section 5 (C08)",
+        technique="basis-vector enumeration of the (linear) momentum maps through a scripted generator for every system x metric type; exact covariance identity",
+        text="sample_momentum is characterised exactly by feeding basis normal draws through a scripted generator (linearity verified on further vectors): L L^T must equal the metric at the position (projected onto the cotangent space for constrained systems) for every system class x metric type / Riemannian family x d=1..3; the correlated transition is characterised as A mom + B z and must satisfy A C A^T + B B^T = C; coefficients 1 and 0 reduce to full refresh (bit-identical) and no change (no generator call).",
+        note="Exact up to rounding because the maps are linear; positions from the lattice.",
     ),
     "C10": dict(
         engine="lattice", category="exploration", design_ref="DESIGN.md section 5 (C10)",
